@@ -340,3 +340,16 @@ func Decode(msg any, buf *bytes.Buffer) error {
 	}
 	return nil
 }
+
+// DecodeFunc resolves msg's Decode method once (no reflection at call time for
+// BinaryCodec types), so that measurements around the call see only the library's work.
+func DecodeFunc(msg any) func(*bytes.Buffer) error {
+	if c, ok := msg.(codec.BinaryCodec); ok {
+		return c.Decode
+	}
+	m := reflect.ValueOf(msg).MethodByName("Decode")
+	if f, ok := m.Interface().(func(*bytes.Buffer) error); ok {
+		return f
+	}
+	return func(b *bytes.Buffer) error { return Decode(msg, b) }
+}
